@@ -31,8 +31,16 @@ def _atom(e):
         if isinstance(op, ast.NotEq):
             a, b = sorted([l, r])
             return "%s == %s" % (a, b), False
-        if type(op) in _TXT:
-            return "%s %s %s" % (l, _TXT[type(op)], r), True
+        # ordering comparisons over one canonical atom per pair: a < b;  a > b = (b < a);  a <= b = not (b < a);  a >= b = not (a < b)
+        # (the two sides of the last two identities differ only when an operand is NaN, which no guard of this code base relies on)
+        if isinstance(op, ast.Lt):
+            return "%s < %s" % (l, r), True
+        if isinstance(op, ast.Gt):
+            return "%s < %s" % (r, l), True
+        if isinstance(op, ast.LtE):
+            return "%s < %s" % (r, l), False
+        if isinstance(op, ast.GtE):
+            return "%s < %s" % (l, r), False
     return ast.unparse(e), True
 
 
